@@ -315,7 +315,8 @@ PROPS = {
                 "or non-ASCII / edge-whitespace text. Distinct: op-kind sequence with chunking + author pattern.",
         "assumptions": ["valid UTF-8 only; operations refused by Validate are not part of the expected history"],
         "tests": [{"name": "TestC04RoundTrip", "quick": 150, "shards_quick": 2, "thorough": 500, "shards": 16},
-                  {"name": "TestC04ForeignForm", "quick": 400, "thorough": 3000, "shards": 2}],
+                  {"name": "TestC04ForeignForm", "quick": 400, "thorough": 3000, "shards": 2},
+                  {"name": "TestC04CommitRetry", "quick": 300, "shards_quick": 2, "thorough": 3000, "shards": 8}],
     },
     "C01": {
         "level": "exploration",
